@@ -102,6 +102,25 @@ NEEDS = {
     "C17e": "a complete line that is not valid UTF-8: `getattr(err, 'object', err.partial)` evaluates its default eagerly, UnicodeDecodeError has no .partial",
     "C18e": "an MQTT payload containing a line-boundary character (U+2028, \\x0c, \\x1c ...): _parse_message_to_mqtt takes the first of splitlines()",
     "C19e": "a node presentation with an empty payload: the shared 1.4 handler stores `payload or gateway.protocol.VERSION`, so the registry depends on the version",
+    # sixth round: the change had to be one of control flow or exception handling (try/except/else/finally, early returns, ordering)
+    "C01f": "a payload that contains ';': to_dict splits without maxsplit and pairs the pieces with zip(strict=True), the surplus pieces raise",
+    "C02f": "an id request/response (internal type 3 or 4) whose child id is outside 0..255: the child range check moved behind the id-request early return",
+    "C03f": "a node-0 (gateway) presentation with an unusable version payload: the ValueError -> InvalidMessageError translation moved from handle_i_version to the internal dispatcher, which the presentation path does not pass",
+    "C04f": "version unknown and a message for an unknown node or child: the wrapper's finally clause reads `handled`, which is unbound when the handler raised -> UnboundLocalError instead of the error naming the node/child",
+    "C05f": "a rejected version report: the setter stores the string before get_protocol validates it (and returns early when the same string comes again)",
+    "C06f": "version unknown and a message whose handler raises something other than Missing*Error (bad payload): try/finally became try/except(Missing*) + success path, the version query is dropped",
+    "C07f": "2.2 and a heartbeat response from a known node: the 2.2 override delegates to super(), i.e. to the 2.0 handler, which marks the node sleeping and releases its buffer",
+    "C08f": "a write fault in the middle of a release and a later wake: the pops moved behind the whole loop into the try's else clause, which a raised write skips - the commands written before the fault are written again",
+    "C09f": "at least two buffered keys and a send for the not yet written one while the release is suspended in a write: the release pops unconditionally before it writes, taking out the newer value and writing the snapshot's older one",
+    "C10f": "2.x, an outstanding request for node N, then any successfully handled message from N (a set, a child presentation): the marker is cleared in the wrapper's else clause",
+    "C11f": "a write fault (or a cancellation) on the id response: `except BaseException` removes the freshly registered node again, the next request hands out the same id",
+    "C12f": "two or more commands held for a sleeping node and a write fault during the release: all entries are popped up front, the ones not yet written are neither held nor written",
+    "C13f": "a registry that contains node 254 (or 255) and an id request: the placeholder is registered in a finally clause, also on the TooManyNodesError path - node 255/256 is saved and the file does not load",
+    "C14f": "a persistence file that is not valid UTF-8: json.loads moved to the second try and the first one now catches OSError only, so the UnicodeDecodeError (a ValueError) raised by reading the file escapes load()",
+    "C16f": "leaving the context before the saver task has run for the first time: suppress(CancelledError) moved into the saver's body, which a task cancelled before its first step never enters; the bare `await task` re-raises",
+    "C17f": "an OS-level error raised by writer.drain(): drain moved to the try's else clause, outside the except OSError",
+    "C18f": "an undecodable payload followed by further broker messages: the decode try was flattened outside the async for, the receive task ends after reporting the first one",
+    "C19f": "2.x only, a message that is rejected as invalid (bad battery/heartbeat/version payload) from a known node: handle_missing_node_child also catches InvalidMessageError and writes a presentation request; 1.x writes nothing",
     "C19b": "a child of type S_HEATER / S_CUSTOM and a set whose value type the 1.4 table lists for it but newer tables do not (or vice versa): shared handle_set consults the per-version table",
 }
 
